@@ -147,7 +147,7 @@ func (self Node) enum() (int, error) {
 	}
 }
 
-// Float64 returns the float64 value contained by a DOUBLE node
+// Float64 returns the float64 value contained by a DOUBLE or FLOAT node
 func (self Node) Float64() (float64, error) {
 	if self.IsError() {
 		return 0, self
@@ -160,8 +160,11 @@ func (self Node) float64() (float64, error) {
 	case proto.DOUBLE:
 		v, _ := protowire.BinaryDecoder{}.DecodeDouble(rt.BytesFrom(self.v, int(self.l), int(self.l)))
 		return v, nil
+	case proto.FLOAT:
+		v, _ := protowire.BinaryDecoder{}.DecodeFloat32(rt.BytesFrom(self.v, int(self.l), int(self.l)))
+		return float64(v), nil
 	default:
-		return 0, errNode(meta.ErrUnsupportedType, "Node.float64: the Node type is not DOUBLE", nil)
+		return 0, errNode(meta.ErrUnsupportedType, "Node.float64: the Node type is not DOUBLE/FLOAT", nil)
 	}
 }
 
@@ -346,7 +349,7 @@ func (self Value) Interface(opts *Options) (interface{}, error) {
 		return self.int()
 	case proto.UINT32, proto.UINT64, proto.FIX32, proto.FIX64:
 		return self.uint()
-	case proto.DOUBLE:
+	case proto.DOUBLE, proto.FLOAT:
 		return self.float64()
 	case proto.BYTE:
 		return self.binary()
